@@ -135,7 +135,12 @@ def h_step_writesame(ctx, transport, form, bs):
 
 def h_geometry(ctx, transport, bs):
     s, tgt = _setup(ctx, transport, bs)
+    tgt.rc16_tail = list(ctx.bytes("rc16_bytes_12_15", 4))
     c = s.readcapacity16()
+    ctx.check("READ CAPACITY(16) reports the physical-block exponent", c.result["lbppbe"] == ctx.oracle(tgt.rc16_tail[1] & 0x0F))
+    ctx.check("the facade's block size is still the one the caller configured", s.blocksize == ctx.oracle(bs))
+    r = s.read10(ctx.int("after_lba", 32), 1)
+    ctx.check("a read after READ CAPACITY(16) still transfers whole logical blocks", len(r.datain) == ctx.oracle(bs))
     ctx.check("READ CAPACITY(16) reports the target's last LBA", c.result["returned_lba"] == ctx.oracle(tgt.last_lba))
     ctx.check("READ CAPACITY(16) reports the block length", c.result["block_length"] == ctx.oracle(bs))
     c = s.readcapacity10()
